@@ -31,7 +31,7 @@ PROPS = {
     'C05': dict(
         props_file='Props/C05.v',
         components=['c05'],
-        comp_names={102: 'commitment scripts on a real cluster vs the composed cluster model with commitment (Model/ClusterCommit.v)', 5: 'commitment (newCommitment/match/setConfiguration/getCommitIndex via tag-exported wrapper)'},
+        comp_names={102: 'commitment scripts on a real cluster vs the composed cluster model with commitment (Model/ClusterCommit.v)', 5: 'commitment (newCommitment/match/setConfiguration/getCommitIndex via tag-exported wrapper)', 8: 'leader sequences (setupLeaderState, dispatchLogs, match reports, leader-loop commit: the current-term rule)'},
         rule='(0) composed-model tie (component 102): 2-5 real servers (all goroutines, 1h timers, pre-vote off, elections scripted as in C01 component 1); a real leader stores entries through Apply; the REAL replicateTo(follower, lastIndex) is run by the script in its own goroutine: it builds the request from the follower\'s real nextIndex and blocks in the transport; any request built so far is executed by its target\'s real handler at any later time (repeatedly, out of order, after the sender was deposed); the follower\'s real answer to the blocked request is returned to replicateTo, whose REAL code processes it (handleStaleTerm / updateLastAppended -> commitment.match / nextIndex back-off) or the call is made to fail; the REAL leader loop then advances the commit index and the REAL FSM goroutines apply; after each op every server\'s role/term/vote/last index/COMMIT INDEX/APPLIED INDEX/FSM CONTENT/FULL LOG, every leader\'s nextIndex per follower and the newest request are diffed against Model/ClusterCommit.v cstep; monitors on the real state after every op: FSM histories prefix-equal across servers, committed entries equal across servers, every leader of a term >= a server\'s term holds what that server knows committed, applied <= commit <= last index (100 scripts of 50-120 ops quick, 1500 thorough); tables: every configuration of n<=3 (quick) / n<=4 (thorough) servers x suffrage in {Voter,Nonvoter,Staging} x match in 0..3 x startIndex in 0..3 '
              '(n=4/5 sampled), each followed by two setConfiguration calls; plus random op sequences (<=30 ops, <=9 servers, occasionally ill-formed '
              'duplicate ids). Compared: commit index after every op. Non-trivial = the commit index advanced at least once',
@@ -50,7 +50,7 @@ PROPS = {
     'C11': dict(
         props_file='Props/C11.v',
         components=['c11', 'c10'],
-        comp_names={6: 'node sequences with takeSnapshot events (snapshot metadata, content and compaction after every snapshot, crash cuts inside)', 11: 'compactLogsWithTrailing on a stepper node over a recording MapLogStore'},
+        comp_names={1015: 'FileSnapshotStore under a file-size limit (writes refused with EFBIG in Write or in the final flush of Close)', 6: 'node sequences with takeSnapshot events (snapshot metadata, content and compaction after every snapshot, crash cuts inside)', 11: 'compactLogsWithTrailing on a stepper node over a recording MapLogStore'},
         rule='first index, snapshot index, last index, TrailingLogs each in 0..8 (6561 cases, exhaustive in both tiers). Compared: the DeleteRange issued. '
              'Non-trivial = a range was deleted',
         exhaustive=True,
@@ -138,7 +138,7 @@ PROPS = {
     'C15': dict(
         props_file='Props/C15.v',
         components=['c15'],
-        comp_names={15: 'file-system op program of the real FileSnapshotStore under strace', 1501: 'List/Open of a fresh real store on explicit (incl. corrupted) images', 1502: 'List/Open of a fresh real store on materialised crash images'},
+        comp_names={1015: 'FileSnapshotStore under a file-size limit (writes refused with EFBIG in Write or in the final flush of Close)', 15: 'file-system op program of the real FileSnapshotStore under strace', 1501: 'List/Open of a fresh real store on explicit (incl. corrupted) images', 1502: 'List/Open of a fresh real store on materialised crash images'},
         rule='(15) generated histories (1-5 snapshots, retain 1..3, arbitrary incl. equal and decreasing (term,index), sizes 0..300 bytes, cancelled and unfinished sinks, two sinks open at once) run on the real FileSnapshotStore in child processes under strace; '
              'the successful syscalls on the store directory, projected to the model alphabet (mkdir/create/write/fsync/rename/fsync-dir/unlink/rmdir with a boundary after every API call), must equal the model program. '
              '(1502) for every crash point k, surviving directory prefix j in [last fsync, k] and junk code (empty / half / unchanged / garbage appended / last synced content) the tree is materialised by REPLAYING THE OBSERVED SYSCALLS with their captured bytes, '
